@@ -259,6 +259,11 @@ def shard(p):
                     acc.sample({"query": q, "expected": str(want), "observed": items[0]["ok"]}, cap=1)
             qs = [q for q, _, w, _ in cases if w != "error"]
             multi.stage(acc, d, rng.sample(qs, min(len(qs), 300)), rng, 300, PID, kind)
+            # ... and queries of two or three calls each, evaluated in turn with one another (iterators alive at the same time)
+            sm = rng.sample(qs, min(len(qs), 240))
+            iq = ["%s %s" % (sm[i], sm[i + 1]) for i in range(0, len(sm) - 1, 2)]
+            iq += ["round(%s,%d) round(%s,%d)" % (rng.choice(["1.23456", "2.34567", "-7777 m", "1250 m", "44444"]), n_, rng.choice(["3.14159", "9.87654", "-0.5 s"]), n_) for n_ in range(-4, 5)]
+            multi.interleave_stage(acc, d, iq, rng, 120, PID, kind)
         finally:
             d.close()
     return acc
